@@ -17,7 +17,7 @@ CHECKS: dict[str, tuple[str, str, str, str, str]] = {
             "Runtime monitor on the real APIPlaintextFrameHelper: every process_packet call is recorded with the index of the "
             "data_received call that produced it and compared with an independent decoder's byte-offset bookkeeping, over "
             "~200k (quick) generated stream x segmentation x buffer-type cases, incl. ALL segmentations of short streams. "
-            "Held = held on these executions. Chunk objects include bytes-like types whose items are wider than one byte or that are two-dimensional.",
+            "Held = held on these executions. Chunk objects include bytes-like types whose items are wider than one byte or that are two-dimensional; bursts of 129-6000 complete small frames in one chunk.",
             "runtime monitoring: recorded delivery trace vs independent reference decoder (offset oracle), exhaustive small segmentations",
             "DESIGN.md §4 C01"),
     "C02": ("W+S", "exploration",
@@ -44,31 +44,31 @@ CHECKS: dict[str, tuple[str, str, str, str, str]] = {
             "Online transition monitor (descriptor on APIConnection.connection_state logs every write with its predecessor) over the real "
             "library on a stepped asyncio loop: every close cause x every injection point (loop iteration x ready-queue index / zero-delay timer / "
             "before-select network event / mid-wait instant) of 11 (quick) lifecycle baselines, closing bytes in the phase-completing chunk, "
-            "sampled fault pairs, plus reuse probes and is_connected == (state is CONNECTED) at every iteration boundary. Further clauses: a disconnect()/force disconnect that returned leaves the object CLOSED for good, a failed or cancelled connect phase leaves its object CLOSED; extra sweeps: resolver/TCP/setsockopt/rejection worlds, same-turn pairs (both orders), stalled-connect and abandoned-disconnect histories.",
+            "sampled fault pairs, plus reuse probes and is_connected == (state is CONNECTED) at every iteration boundary. Further clauses: a disconnect()/force disconnect that returned leaves the object CLOSED for good, a failed or cancelled connect phase leaves its object CLOSED; extra sweeps: resolver/TCP/setsockopt/rejection worlds, same-turn pairs (both orders), stalled-connect and abandoned-disconnect histories, sessions opened from inside the previous session's stop callback; a fatal error reported to the connection has taken effect (state CLOSED) when the report returns.",
             "runtime monitoring: online state-transition checker on hooked slot writes under enumerated fault x loop-step injection",
             "DESIGN.md §4 C05"),
     "C07": ("S", "fault_enumeration",
             "Per-connection on_stop counter (wrapper installed at APIConnection construction) + graceful-initiation event log, judged by an "
-            "exactly-once / right-argument oracle over the same fault x injection-point enumeration plus ordered pairs of close causes. 'Before the connection closed' is the CLOSED write; same-turn pairs in both orders, stalled-connect and abandoned-disconnect histories; a lost transport or a peer silent for more than 8 keep-alive periods on an established session must have fired the callback.",
+            "exactly-once / right-argument oracle over the same fault x injection-point enumeration plus ordered pairs of close causes. 'Before the connection closed' is the CLOSED write; same-turn pairs in both orders, stalled-connect and abandoned-disconnect histories; a lost transport or a peer silent for more than 8 keep-alive periods on an established session must have fired the callback. The application's callback is a distinct object per session and is attributed to its session, incl. sessions opened on the same client from inside the previous stop callback; sockets answer shutdown() with ENOTCONN after a peer reset as the kernel does (calibrated).",
             "runtime monitoring: exactly-once counter + event-order oracle under enumerated single and paired close causes",
             "DESIGN.md §4 C07"),
     "C08": ("S", "fault_enumeration",
             "Resource auditor run at the first end-of-instant after every CLOSED write and at scenario end (live TimerHandles, pending tasks and "
             "calls, unclosed FakeSockets/transports, bytes accepted by the socket after close, subscriber invocations after close) over the "
-            "fault x injection-point enumeration incl. steady-state baselines and 'closing frame + trailing frames in one chunk'. Also under the auditor: resolver/TCP/setsockopt/silent-peer failures before a transport exists, same-turn pairs, stalled-connect and abandoned-disconnect histories, an application stop callback that raises; a delivered connection_lost must leave the connection CLOSED in that instant.",
+            "fault x injection-point enumeration incl. steady-state baselines and 'closing frame + trailing frames in one chunk'. Also under the auditor: resolver/TCP/setsockopt/silent-peer failures before a transport exists, same-turn pairs, stalled-connect and abandoned-disconnect histories, an application stop callback that raises; a delivered connection_lost must leave the connection CLOSED in that instant; a force_disconnect() entered in any state (also while resolving / connecting) must have closed the connection by the end of the run; overlapping sessions of one client are audited with per-connection attribution.",
             "runtime monitoring: quiescent-point resource audit (timer heap, task set, sockets, post-close writes/deliveries) at injected crash points",
             "DESIGN.md §4 C08"),
     "C09": ("S", "fault_enumeration",
             "Call recorder in virtual time + fatal-cause recorder: every awaited call must return within its documented bound (none pending at the "
             "400 s horizon or when the world is idle forever), raise only APIConnectionError subclasses (CancelledError only when the harness "
             "cancelled that task), and carry the first fatal cause; faults incl. resolver/TCP errors and hangs, at every injection point, singly "
-            "and in pairs. Also: duplicate answers / answer + closing event in one chunk, rejection worlds x user actions, rejection + hang-up in one chunk (first cause), every write to the recorded fatal cause (never overwritten), Bluetooth calls against a silent proxy end exactly at their bound.",
+            "and in pairs. Also: duplicate answers / answer + closing event in one chunk, rejection worlds x user actions, rejection + hang-up in one chunk (first cause), every write to the recorded fatal cause (never overwritten), Bluetooth calls against a silent proxy end exactly at their bound, and a peripheral drop reported with any reason code ends them at once with a library error.",
             "runtime monitoring: virtual-time call recorder with bound table, error-class check, first-cause oracle and deadlock detector",
             "DESIGN.md §4 C09"),
     "C06": ("S", "exploration",
             "End-to-end APIClient.connect against the simulated device over the finite matrix of versions x names (API hello and Noise hello) x "
             "password verdicts x login x expected-name x framing x response packaging; outcome, error class (with received_name), final state and "
-            "stop-callback count judged by a decision function written from the statement. The matrix is enumerated completely at thorough. Also: hang-up (DisconnectRequest / garbage) right behind the last answer in the same chunk, and the expected name configured through the setter before the attempt or between its two phases.",
+            "stop-callback count judged by a decision function written from the statement. The matrix is enumerated completely at thorough. Also: hang-up (DisconnectRequest / garbage) right behind the last answer in the same chunk, and the expected name configured through the setter before the attempt or between its two phases; expected names in mixed / upper case and non-ASCII spellings against devices answering the same, the case-folded and a prefix spelling.",
             "runtime monitoring: outcome of real connect() per enumerated configuration row vs decision-function oracle",
             "DESIGN.md §4 C06"),
     "C10": ("S", "exploration",
@@ -80,7 +80,7 @@ CHECKS: dict[str, tuple[str, str, str, str, str]] = {
     "C11": ("S", "exploration",
             "Recorded histories (request entry, process_packet arrivals, predicate invocations, completions, cancels, closes) of 1-3 concurrent "
             "request-response calls are judged call by call against a sequential model; after every ending a leftover audit counts handle_timeout "
-            "timers, response-handler registrations and waiters against the calls still pending. Arrivals and closing events can share one chunk, instant replies can be coalesced, the debug flag can be toggled while calls are outstanding.",
+            "timers, response-handler registrations and waiters against the calls still pending. Arrivals and closing events can share one chunk, instant replies can be coalesced, the debug flag can be toggled while calls are outstanding, passive subscribers on a response type can be added and removed repeatedly; calls outstanding on a stalled connect (with disconnect() on top) must all end in the instant the link is lost.",
             "runtime monitoring: recorded call/arrival history vs per-call sequential model + leftover audit at quiescent points",
             "DESIGN.md §4 C11"),
     "C12": ("S", "exploration",
@@ -92,7 +92,7 @@ CHECKS: dict[str, tuple[str, str, str, str, str]] = {
     "C13": ("T+S", "exploration",
             "Structural invariant check of the live module tables and compiled descriptors against the api.proto TEXT (independent parser): every "
             "declared message x every obligation, enumerated completely; plus direction monitors on the wire (device-side decode) and on "
-            "_add_message_callback during a sweep of every public APIClient method. The direction monitor also harvests the workloads of C12, C16, C17, C18, C19 and an API sweep against a device that never answers; a frame of every declared id is pushed through the receive path and must arrive as the class api.proto names.",
+            "_add_message_callback during a sweep of every public APIClient method. The direction monitor also harvests the workloads of C12, C16, C17, C18, C19 and an API sweep against a device that never answers; a frame of every declared id is pushed through the receive path and must arrive as the class api.proto names, and frames with undeclared type numbers (incl. values equal to a declared id in their low byte / low 16 bits) select no class, are not answered and do not end the session, on both framings.",
             "runtime monitoring: invariant walk of live tables/descriptors vs independent .proto text parser + direction monitors during API sweep",
             "DESIGN.md §4 C13"),
     "C14": ("T", "exploration",
@@ -110,13 +110,13 @@ CHECKS: dict[str, tuple[str, str, str, str, str]] = {
     "C16": ("S", "exploration",
             "1-4 concurrent Bluetooth operations on a live simulated session with scripted reply orders; recorded arrival/completion history is "
             "judged per operation by a matching model (address, handle, type), with exact completion and timeout instants, the DISCONNECT-before-"
-            "timeout rule, and leftover probes (matching traffic after the end must reach no callback; handler table holds only documented survivors). Also: caller cancellation in the loop iteration in which the deciding answer arrives (ahead of it and behind it) and the documented clean-up (unsub + notify remove) executed from inside the connection-state callback.",
+            "timeout rule, and leftover probes (matching traffic after the end must reach no callback; handler table holds only documented survivors). Also: caller cancellation in the loop iteration in which the deciding answer arrives (ahead of it and behind it) and the documented clean-up (unsub + notify remove) executed from inside the connection-state callback; several replies in one chunk (answer followed by duplicate / GATT error / connection change); peripheral drops with every reason code; boundary addresses and handles.",
             "runtime monitoring: recorded BLE operation history vs per-operation matching model + post-completion leftover probes",
             "DESIGN.md §4 C16"),
     "C17": ("S", "exploration",
             "User callbacks of every subscribe_* method are recorded on live simulated sessions and compared with a one-callback-per-message model "
             "(value = C14 descriptor-driven expected model), a per-key camera reassembly model over ALL order-preserving interleavings up to 9 "
-            "chunks, and exact reply frames at the device for voice-assistant sequences; unsubscribe at every position of a stream. Also: optional handlers omitted, one-shot subscriptions unsubscribing inside their own callback, camera reassembly across sessions of one client and across two subscribers.",
+            "chunks, and exact reply frames at the device for voice-assistant sequences; unsubscribe at every position of a stream. Also: optional handlers omitted, one-shot subscriptions unsubscribing inside their own callback, camera reassembly across sessions of one client and across two subscribers; advertisement names that are not valid UTF-8; client objects constructed outside the running loop (work parked on an idle loop is reported).",
             "runtime monitoring: callback trace vs one-callback-per-message / camera reassembly models, exhaustive small interleavings",
             "DESIGN.md §4 C17"),
     "C18": ("S", "exploration",
@@ -127,7 +127,7 @@ CHECKS: dict[str, tuple[str, str, str, str, str]] = {
             "variants. An offline trace checker over the class-boundary log of every start_connection/finish_connection, the user callbacks, the "
             "harness calls, mDNS deliveries and fake-zeroconf listener/close logs judges: no overlapping attempts or connection objects, every "
             "attempt instant justified, exact due instant after each trigger (bounded progress in virtual time), callback alternation and counts, "
-            "and silence / no listener / zeroconf closed after stop().",
+            "and silence / no listener / zeroconf closed after stop(). Includes outages of > 1200 consecutive failed attempts (73 000-80 000 s).",
             "runtime monitoring: offline trace checker (justified attempt instants, bounded progress, alternation, stop) over recorded manager histories",
             "DESIGN.md §4 C18"),
     "C19": ("S", "exploration",
@@ -136,7 +136,7 @@ CHECKS: dict[str, tuple[str, str, str, str, str]] = {
             "DisconnectRequest/garbage, every public API method). A class-boundary log of every start_connection / finish_connection / disconnect "
             "invocation plus the connection stop-hook monitor is judged offline by a two-bit model (attempt in progress / session alive): refusal "
             "only if attempt or alive, mandatory refusal while alive or an un-closed attempt is pending, API calls while not alive raise "
-            "APIConnectionError synchronously with zero send_messages calls and zero transport writes inside them.",
+            "APIConnectionError synchronously with zero send_messages calls and zero transport writes inside them. A login the device rejected never makes a session alive (clients with password set / none / empty / other); sockets answer shutdown() as the kernel does.",
             "runtime monitoring: class-boundary call log + stop-hook monitor vs two-bit executable model, exhaustive short histories",
             "DESIGN.md §4 C19"),
     "C20": ("R", "exploration",
@@ -144,7 +144,7 @@ CHECKS: dict[str, tuple[str, str, str, str, str]] = {
             "getaddrinfo; returned addresses (or the addresses handed to the connect step and the TCP attempts made), the exact lookup-call trace "
             "and the close count of every zeroconf instance (supplied vs library-created) are compared with a reference resolver written from the "
             "statement: complete for <= 2 hosts over 8 host forms x mDNS x OS outcomes x 5 provisions, sampled for 3, cancellation / resolve timeout "
-            "mid-lookup, all ZeroconfManager operation sequences up to length 4 (quick) / 5 (thorough).",
+            "mid-lookup, all ZeroconfManager operation sequences up to length 4 (quick) / 5 (thorough). Host forms include names below a sub-domain of .local and FQDNs containing .local.; OS answers include link-local addresses with a numeric scope and non-zero flowinfo.",
             "runtime monitoring: result + lookup-call trace + per-instance close counters vs reference resolver, exhaustive small matrix",
             "DESIGN.md §4 C20"),
 }
